@@ -129,20 +129,26 @@ def _unregister_paths(fn, h):
         return isinstance(st, ast.Expr) and isinstance(st.value, ast.Call) and ast.unparse(st.value.func) == 'self.cf.remove_port_callback' \
             and [ast.unparse(a) for a in st.value.args] == ['CRTPPort.PARAM', h.name]
     exits = {}
+    after_cb = []          # for every remove_port_callback: was the caller's callback called before it on that path?
 
-    def walk(stmts, removed):
+    def calls_callback(st):
+        return any(isinstance(n, ast.Call) and ast.unparse(n.func) == 'callback' for n in ast.walk(st))
+
+    def walk(stmts, removed, called=False):
         """-> removed-flag at fall-through, or None when every path returned"""
         for st in stmts:
             if is_remove(st):
                 removed = True
+                after_cb.append(called)
             elif isinstance(st, ast.Return):
                 exits.setdefault('return', []).append(removed)
                 return None
             elif isinstance(st, ast.If):
-                a = walk(st.body, removed)
+                a = walk(st.body, removed, called)
                 if a is None and 'ENOENT' in ast.unparse(st.test):
                     exits['enoent'] = exits['return'].pop()
-                b = walk(st.orelse, removed)
+                b = walk(st.orelse, removed, called)
+                called = called or calls_callback(st)
                 if a is None and b is None:
                     return None
                 removed = (a if b is None else b if a is None else (a and b))
@@ -150,11 +156,13 @@ def _unregister_paths(fn, h):
                 raise ExtractError(fn.name + ': handler contains a statement whose paths are not analysed: ' + ast.unparse(st)[:60])
             elif any(isinstance(n, ast.Return) for n in ast.walk(st)):
                 raise ExtractError(fn.name + ': return in an unexpected place')
+            elif calls_callback(st):
+                called = True
         return removed
     end = walk(ifs[0].body, False)
     X.expect(not exits.get('return'), fn.name + ': handler has a return path that is not the ENOENT one')
     X.expect(end is not None, fn.name + ': handler never reaches its end')
-    return exits.get('enoent'), end
+    return exits.get('enoent'), end, after_cb
 
 
 MISC_FUNCS = [('get_default_value', 'getDefault'), ('persistent_get_state', 'getState'),
@@ -278,6 +286,7 @@ def extract(ctx):
     # -- misc requests and reply handlers
     routing = None
     req_fmts = set()
+    unreg_order = []
     for fn, short in MISC_FUNCS:
         f = X.find(pa, fn)
         h = _nested(f, 'new_packet_cb')
@@ -299,7 +308,8 @@ def extract(ctx):
             req_fmts.add(scf[0]['fmt'] or '?')
             g.strings(short + 'ReqArgs', scf[0]['args'])
             g.string(short + 'RegisterTest', ';'.join(ast.unparse(n.test) for n in f.body if isinstance(n, ast.If) and _calls(n, 'self.cf.add_port_callback')))
-            en, end = _unregister_paths(f, h)
+            en, end, after_cb = _unregister_paths(f, h)
+            unreg_order += after_cb
             X.expect((en is None) == (short in ('store', 'clear')), fn + ': unexpected ENOENT early-return structure')
             g.raw('def %sEnoentUnreg : Bool := %s' % (short, _lbool(True if en is None else en)))
             g.raw('def %sEndUnreg : Bool := %s' % (short, _lbool(end)))
@@ -323,6 +333,9 @@ def extract(ctx):
         g.strings(short + 'Guards', [ast.unparse(n.test) for n in f.body if isinstance(n, ast.If) and not _calls(n, 'self.cf.add_port_callback')])
         g.strings(short + 'GuardRaises', _raises(ast.Module(body=[n for n in f.body if isinstance(n, ast.If)], type_ignores=[])))
     g.nat('miscRouting', routing)
+    # the caller's callback is called BEFORE the handler unregisters itself (an exception escaping the callback leaves it registered)
+    X.expect(len(set(unreg_order)) <= 1, 'the reply handlers unregister on different sides of the user callback: %r' % unreg_order)
+    g.raw('def unregAfterCallback : Bool := ' + _lbool(all(unreg_order)))
     if routing == 2:
         sm = X.find(pa, '_send_misc_request')
         scf = X.struct_calls(sm)
@@ -530,6 +543,7 @@ class Real:
         self.upd = self.param.param_updater
         self.link = self.s.link
         self.in_cb = False
+        self.scripts = {}
         self.cf.is_called_by_incoming_handler_thread = lambda: self.in_cb
 
         def no_wait(timeout=None):
@@ -625,6 +639,44 @@ class Real:
     def proto4(self):
         return self.cf.platform.get_protocol_version() >= 4
 
+    def run_script(self, rid):
+        """the re-entrant part of the caller's callback `rid`: further API calls made from inside the reply dispatch.  An exception
+        raised by one of them escapes the callback, as it would in an application."""
+        calls = getattr(self, 'scripts', {}).get(rid, ())
+        prev, self.in_cb = self.in_cb, True
+        try:
+            for c in calls:
+                k, name = c[0], c[1]
+                if k == 'set':
+                    self.param.set_value(name, c[2])
+                elif k == 'get':
+                    v = self.param.get_value(name)
+                    self.log.append(canon_tok('ret:' + self.val_tok(self.pytype(name), v)))
+                elif k == 'requpd':
+                    self.param.request_param_update(name)
+                elif k == 'getdef':
+                    self.param.get_default_value(name, self._misc_cb(c[2], 'd', name))
+                elif k == 'getstate':
+                    self.param.persistent_get_state(name, self._misc_cb(c[2], 's', name))
+                elif k == 'store':
+                    self.param.persistent_store(name, None if c[2] is None else self._misc_cb(c[2], 'b', name))
+                elif k == 'clear':
+                    self.param.persistent_clear(name, None if c[2] is None else self._misc_cb(c[2], 'b', name))
+        finally:
+            self.in_cb = prev
+
+    def script_line(self, rid):
+        out = []
+        for c in getattr(self, 'scripts', {}).get(rid, ()):
+            k, name = c[0], c[1]
+            if k == 'set':
+                out.append('set,%s,%s' % (self.cn(name), pyval_tok(c[2])))
+            elif k in ('get', 'requpd'):
+                out.append('%s,%s' % (k, self.cn(name)))
+            else:
+                out.append('%s,%s,%s' % (k, self.cn(name), '-' if c[2] is None else c[2]))
+        return 'script %d %s' % (rid, ';'.join(out) or '-')
+
     def _misc_cb(self, rid, kind, pytype_name):
         def cb(name, val):
             pt = self.pytype(pytype_name)
@@ -639,6 +691,7 @@ class Real:
             else:
                 r = 'b:%d' % (1 if val else 0)
             self.log.append('misc:%d:%s:%s' % (rid, self.cn(name), r))
+            self.run_script(rid)
         return cb
 
     def get_default(self, name, rid):
@@ -1059,6 +1112,9 @@ def run_ops(sc, nops, weights=None):
             kind = rng.choice(['getdef', 'getstate', 'getstate', 'store', 'clear'])
             sc.rid += 1
             rid = sc.rid
+            if rng.random() < 0.25 and name in names:      # (the immediate refusal callback of an unknown name stays inert)
+                r.scripts[rid] = gen_script(sc)
+                sc.emit(r.script_line(rid), ['ok', '-'])
             if kind == 'getdef':
                 toks = r.get_default(name, rid)
                 line = 'getdef %s %d' % (r.cn(name), rid)
@@ -1223,10 +1279,39 @@ def first_byte_two(rng, ct):
     return struct.unpack(FW_FMT[ct], raw)[0]
 
 
-def misc_call(sc, kind, name, with_cb=True):
+def gen_script(sc, depth=0):
+    """a re-entrant callback body: 1-3 further API calls (same or other parameters, all four misc kinds, set / read / get),
+    whose own callbacks may again have scripts"""
+    rng, dev = sc.rng, sc.dev
+    calls = []
+    for _ in range(rng.randint(1, 3)):
+        i = rng.randrange(len(dev.param_toc))
+        name, p = sc.names[i], dev.param_toc[i]
+        k = rng.choice(['set', 'get', 'requpd', 'getdef', 'getstate', 'store', 'clear', 'getstate', 'store'])
+        if k == 'set':
+            if p.readonly:
+                calls.append(('requpd', name))    # (a call that raises would leave the handler registered: see reentrant_family)
+            else:
+                calls.append((k, name, rand_value(rng, p.ctype)))
+        elif k in ('get', 'requpd'):
+            calls.append((k, name))
+        else:
+            sc.rid += 1
+            rid = sc.rid
+            if depth < 2 and rng.random() < 0.3:
+                sc.real.scripts[rid] = gen_script(sc, depth + 1)
+                sc.emit(sc.real.script_line(rid), ['ok', '-'])
+            calls.append((k, name, None if (k in ('store', 'clear') and rng.random() < 0.2) else rid))
+    return calls
+
+
+def misc_call(sc, kind, name, with_cb=True, script=None):
     r = sc.real
     sc.rid += 1
     rid = sc.rid
+    if script is not None and with_cb:
+        r.scripts[rid] = script
+        sc.emit(r.script_line(rid), ['ok', '-'])
     if kind == 'getdef':
         toks, line = r.get_default(name, rid), 'getdef %s %d' % (r.cn(name), rid)
     elif kind == 'getstate':
@@ -1270,6 +1355,40 @@ def sequential_family(sc):
     for kind in ('getstate', 'getdef', 'store', 'clear'):
         misc_call(sc, kind, name)
         drain(sc)
+
+
+def reentrant_family(sc):
+    """the callback of a misc request issues further requests from inside the reply dispatch - in particular the SAME kind of
+    query for the SAME parameter (its handler is registered while the old reply is being dispatched and must not see it)"""
+    rng, r, ctx, dev = sc.rng, sc.real, sc.ctx, sc.dev
+    pers = [i for i, p in enumerate(dev.param_toc) if p.persistent]
+    if not pers or not r.proto4():
+        return
+    i = rng.choice(pers)
+    name = sc.names[i]
+    for kind in ('getstate', 'getdef', 'store', 'clear'):
+        sc.rid += 2
+        a, b = sc.rid - 1, sc.rid
+        other = rng.choice(['store', 'clear', 'getdef', 'getstate'])
+        script = [(other, name, a), (kind, name, b)]
+        if rng.random() < 0.5:
+            script.insert(rng.randrange(3), ('set', name, rand_value(rng, dev.param_toc[i].ctype)) if not dev.param_toc[i].readonly
+                          else ('requpd', name))
+        misc_call(sc, kind, name, script=script)
+        drain(sc)
+        ctx.count('reentrant:' + kind)
+    for _ in range(3):
+        misc_call(sc, rng.choice(['getstate', 'getdef', 'store', 'clear']), name, script=gen_script(sc))
+        drain(sc)
+        ctx.count('reentrant:random-script')
+    # a nested call that raises: the exception escapes the callback, the handler is NOT unregistered and hears the next reply too
+    kind = rng.choice(['getstate', 'getdef', 'store', 'clear'])
+    sc.rid += 1
+    misc_call(sc, kind, name, script=[(rng.choice(['store', 'clear']), name, None), rng.choice([('get', 'nosuch.p0'), ('requpd', 'plain'), ('set', 'nosuch.p0', 1)])])
+    drain(sc)
+    misc_call(sc, kind, name)
+    drain(sc)
+    ctx.count('reentrant:raising-script')
 
 
 def retry_family(sc):
@@ -1346,6 +1465,9 @@ def correspond(ctx):
             if k % 3 == 0:
                 drain(sc)
                 sequential_family(sc)
+            if k % 4 == 1:
+                drain(sc)
+                reentrant_family(sc)
             run_ops(sc, 150 if thorough else 80)
             if sc.real.proto4():
                 drain(sc)
@@ -1499,6 +1621,7 @@ def search(ctx):
     _search_sync(ctx)
     _search_duplicates(ctx)
     _search_sequential(ctx)
+    _search_reentrant(ctx)
     _search_retry(ctx)
     search_threads(ctx)
 
@@ -1565,6 +1688,66 @@ def _search_sequential(ctx):
                         'reply to its own request',
                         {'type': ct, 'requests': [[k, 'g.p%d' % i, v] for (k, i, v) in plan]},
                         wrong={str(k): {'request': list(plan[k]), 'expected': repr(expected.get(k)), 'got': repr(got.get(k))} for k in bad[:4]})
+
+
+def _search_reentrant(ctx):
+    """Callbacks of misc requests that re-enter the API from inside the reply dispatch (further requests for the same or other
+    parameters, in particular the same kind of query for the same parameter).  Spec: requests go out in the order they are
+    issued (nested ones at the moment their callback runs); every callback is called exactly once, with the device's reply to
+    its own request (sequential device oracle)."""
+    from harness.sim import crazyflie_device as S
+    import copy
+    rng = ctx.rng
+    routing, _snap = source_variant()
+    kinds = ['getstate', 'getdef', 'store', 'clear']
+    fns = {'getdef': 'get_default_value', 'getstate': 'persistent_get_state', 'store': 'persistent_store', 'clear': 'persistent_clear'}
+    for t in range(16 if ctx.tier == 'thorough' else 8):
+        kind = kinds[t % 4]
+        ct = CTYPES[(5 * t + 2) % len(CTYPES)]
+        ps = [S.ParamVar('g', 'p%d' % k, ct, value=rand_value(rng, ct), persistent=True, default=rand_value(rng, ct)) for k in range(2)]
+        dev = S.CrazyflieDevice(protocol_version=5, param_toc=ps)
+        r = Real(dev, {}, routing, needs_resending=bool(t & 4))
+        _pump(r)
+        if not _ready(ctx, r, 'reentrant'):
+            return
+        oracle = copy.deepcopy(dev)
+        oracle.requests = []
+        got, issued = {}, []
+
+        def issue(k, i, script=()):
+            rid = len(issued)
+            issued.append((k, i))
+
+            def cb(nm, val, _rid=rid, _script=script):
+                if val is not None and hasattr(val, 'is_stored'):
+                    val = (val.is_stored, _bits(ct, val.default_value), None if val.stored_value is None else _bits(ct, val.stored_value))
+                elif val is not None and not isinstance(val, bool):
+                    val = _bits(ct, val)
+                got.setdefault(_rid, []).append((nm, val))
+                for (k2, i2, s2) in _script:            # re-entrant: called from inside the reply dispatch
+                    issue(k2, i2, s2)
+            getattr(r.param, fns[k])('g.p%d' % i, cb)
+        # the callback of the first request stores / clears and then asks the same question about the same parameter again,
+        # whose callback in turn asks about the other parameter
+        other = rng.choice(['store', 'clear'])
+        script = [(other, 0, ()), (kind, 0, [(rng.choice(kinds), 1, ())])]
+        if t % 2:
+            script.insert(0, (rng.choice(kinds), 1, ()))
+        r.s.call(issue, kind, 0, script)
+        _pump(r)
+        expected = {}
+        for rid, (k, i) in enumerate(issued):
+            expected[rid] = [('g.p%d' % i, _expected_misc(oracle, S, k, i)[1])]
+        ctx.count('search:reentrant-' + kind)
+        nwant = 4 + (t % 2)
+        if got != expected or len(issued) != nwant:
+            bad = sorted(k for k in set(got) | set(expected) if got.get(k) != expected.get(k))
+            ctx.witness('reentrant-callback-attribution',
+                        'a misc reply callback issued further requests from inside the dispatch: a callback was not called exactly once '
+                        'with the reply to its own request',
+                        {'type': ct, 'first': [kind, 'g.p0'], 'script_of_its_callback': repr(script), 'issued': issued},
+                        wrong={str(k): {'request': issued[k] if k < len(issued) else None, 'expected': repr(expected.get(k)), 'got': repr(got.get(k))}
+                               for k in bad[:4]})
 
 
 def _search_retry(ctx):
